@@ -1,7 +1,7 @@
 CONSTANTS
   Slots = {"s1", "s2", "s3"}
   MaxOps = 2
-  MaxId = 6
+  MaxId = 9
   EmitOn = FALSE
 INIT MCInit
 NEXT MCNext
